@@ -21,7 +21,7 @@ RULE = ('roundtrip units: cookie names from the token alphabet x plain values (t
         'position x {16 substitution symbols, deletion, truncation} in quoted and unquoted transport form, plus swaps / length changes / '
         'other secret / other name. Non-trivial = a signed cookie, or a plain value needing quoting; distinct = distinct Cookie header.')
 PYOPT = {'quick': 1, 'thorough': 1}     # one unit of every kind is also served by an interpreter started with -O (assert statements compiled out)
-REQUIRED = ['units_run_under_python_-O', 'set_after_earlier_cookie_operations', 'emitted_by_a_copied_response', 'plain_roundtrips', 'signed_roundtrips', 'quoted_values', 'tamper_reads', 'tamper_substitution', 'tamper_deletion',
+REQUIRED = ['units_run_under_python_-O', 'tampered_header_put_on_a_request_that_had_read_the_genuine_one', 'cookie_on_a_response_without_body(204/304)', 'set_after_earlier_cookie_operations', 'emitted_by_a_copied_response', 'plain_roundtrips', 'signed_roundtrips', 'quoted_values', 'tamper_reads', 'tamper_substitution', 'tamper_deletion',
             'tamper_truncation', 'tamper_swap', 'tamper_other_secret', 'tamper_other_name', 'unpickler_calls_observed', 'read_as_absent',
             'via_wsgi', 'unquoted_form', 'among_other_cookies']
 ASSUMPTIONS = ['cookie names are RFC 6265 tokens accepted by http.cookies; values are non-empty and at most 4096 characters',
@@ -53,13 +53,17 @@ def apply_prior(resp, prior, name):
         resp.set_cookie('zz' + name if name[:1].isalnum() else 'zzother', 'other')
 
 
-def set_and_emit(kind, name, value, secret=None, prior='none', **opts):
+STATUSES = [200, 200, 204, 304, 302, 404, 500, 201]     # a cookie travels with any response, also with those that carry no body
+
+
+def set_and_emit(kind, name, value, secret=None, prior='none', status=200, **opts):
     """-> the Set-Cookie header value as handed to the server (latin-1 form).
     kind 'Response' | 'HTTPResponse' | 'copied' (set on a Response, emitted by its copy: what redirect() does)"""
     from ombott.response import Response, HTTPResponse
     r = HTTPResponse('b') if kind == 'HTTPResponse' else Response()
     apply_prior(r, prior, name)
     r.set_cookie(name, value, secret=secret, **opts)
+    r.status = status
     if kind == 'copied':
         r = r.copy(cls=HTTPResponse)
     vals = [v for k, v in r.headerlist if k == 'Set-Cookie' and v.startswith(name + '=')]
@@ -104,8 +108,8 @@ class Mon:
         self.spy = PickleSpy.install_global()      # the name `pickle` inside ombott resolves to the patched module
         self.legit = set()
 
-    def sign(self, name, value, secret, kind='Response', prior='none'):
-        sc = set_and_emit(kind, name, value, secret, prior=prior)
+    def sign(self, name, value, secret, kind='Response', prior='none', status=200):
+        sc = set_and_emit(kind, name, value, secret, prior=prior, status=status)
         self.legit.add(pickle.dumps((name, value), -1))
         return sc
 
@@ -132,6 +136,7 @@ def roundtrip_unit(ctx, unit):
     def h_set():
         apply_prior(app.response, cur['prior'], cur['name'])
         app.response.set_cookie(cur['name'], cur['value'], secret=cur['secret'], path='/', httponly=True)
+        app.response.status = cur['status']
         return 'set'
 
     @app.route('/get')
@@ -153,27 +158,30 @@ def roundtrip_unit(ctx, unit):
                 value = rng.choice(PLAIN)[:20] + rng.choice(PLAIN)[:20]
         mode = rng.choice(['object', 'object', 'wsgi'])
         prior = rng.choice(PRIORS)
+        status = rng.choice(STATUSES)
+        if status in (204, 304):
+            ctx.count('cookie_on_a_response_without_body(204/304)')
         if prior != 'none':
             ctx.count('set_after_earlier_cookie_operations')
-        wit = {'unit': {'kind': 'rt1', 'name': name, 'signed': signed, 'secret': secret, 'value': repr(value), 'mode': mode, 'prior': prior}}
-        where = f'{"signed" if signed else "plain"} cookie {name}={value!r} ({mode}, {prior})'
+        wit = {'unit': {'kind': 'rt1', 'name': name, 'signed': signed, 'secret': secret, 'value': repr(value), 'mode': mode, 'prior': prior, 'status': status}}
+        where = f'{"signed" if signed else "plain"} cookie {name}={value!r} ({mode}, {prior}, status {status})'
         try:
             if mode == 'object':
                 kind = rng.choice(['Response', 'HTTPResponse', 'copied'])
                 if kind == 'copied':
                     ctx.count('emitted_by_a_copied_response')
                 if signed:
-                    sc = mon.sign(name, value, secret, kind, prior)
+                    sc = mon.sign(name, value, secret, kind, prior, status)
                 else:
-                    sc = set_and_emit(kind, name, value, prior=prior)
+                    sc = set_and_emit(kind, name, value, prior=prior, status=status)
             else:
-                cur.update(name=name, value=value, secret=secret, prior=prior)
+                cur.update(name=name, value=value, secret=secret, prior=prior, status=status)
                 if signed:
                     mon.legit.add(pickle.dumps((name, value), -1))
                 r = call_app(app, make_environ('GET', '/set'))
                 ctx.count('via_wsgi')
                 scs = [v for v in r.header_all('Set-Cookie') if v.startswith(name + '=')]
-                if r.code != 200 or len(scs) != 1 or r.problems:
+                if r.code != status or len(scs) != 1 or r.problems:
                     ctx.violation('set-cookie-not-emitted', f'{where}: {r.status} {scs} {r.problems} {r.errors[-200:]}', wit)
                     continue
                 sc = scs[0]
@@ -233,8 +241,23 @@ def tamper_one(ctx, mon, name, value, secret, signed_string, header, what, wit_e
     ctx.case(('t', header, secret), nontrivial=True)
     sv = stdlib_value(header, name)
     unaltered = (sv == signed_string)
+    genuine = getattr(mon, 'genuine', None)
     try:
-        back = new_request(header).get_cookie(name, default=SENT, secret=secret)
+        if genuine is not None and len(header) % 3 == 0:
+            # the same request object first carried the genuine cookie (and it was read), then the header was replaced
+            # through the request; what counts is the header as it is now
+            rq = new_request(genuine)
+            first = rq.get_cookie(name, default=SENT, secret=secret)
+            mon.check_spy(where + ' (genuine cookie read first)', wit)
+            if first != value:
+                ctx.violation('unaltered-signed-cookie-not-read-back', f'{where}: genuine {genuine!r} read as {first!r}', wit)
+                return
+            rq['HTTP_COOKIE'] = header
+            ctx.count('tampered_header_put_on_a_request_that_had_read_the_genuine_one')
+            wit['unit']['genuine_first'] = genuine
+            back = rq.get_cookie(name, default=SENT, secret=secret)
+        else:
+            back = new_request(header).get_cookie(name, default=SENT, secret=secret)
     except CookieError as e:
         mon.check_spy(where, wit)
         ctx.violation('tampered-cookie-header-raises-CookieError-out-of-request.cookies', f'{where}: {e!r}', wit)
@@ -273,6 +296,7 @@ def tamper_unit(ctx, unit):
         signed_string = stdlib_value(pair, name)
         if not (signed_string and signed_string.startswith('!')):
             raise AssertionError(pair)
+        mon.genuine = pair
         # sanity: untouched cookie reads back
         if new_request(pair).get_cookie(name, secret=secret) != value:
             raise AssertionError('the untouched signed cookie does not read back')
@@ -377,7 +401,14 @@ def run_unit(ctx, unit):
         del mon.spy.loads_calls[:]
         print(f"  Cookie: {unit['header']!r} read with secret {unit['secret']!r}")
         try:
-            back = new_request(unit['header']).get_cookie(unit['name'], default='<absent>', secret=unit['secret'])
+            if unit.get('genuine_first'):
+                rq = new_request(unit['genuine_first'])
+                print('  genuine cookie read first:', repr(rq.get_cookie(unit['name'], default='<absent>', secret=unit['secret']))[:80])
+                del mon.spy.loads_calls[:]
+                rq['HTTP_COOKIE'] = unit['header']
+                back = rq.get_cookie(unit['name'], default='<absent>', secret=unit['secret'])
+            else:
+                back = new_request(unit['header']).get_cookie(unit['name'], default='<absent>', secret=unit['secret'])
             print(f'  -> {back!r}; unpickler calls: {len(mon.spy.loads_calls)}')
             if back != '<absent>' or mon.spy.loads_calls:
                 ctx.violation('replayed', 'altered cookie accepted or deserialised', None)
